@@ -44,7 +44,14 @@ def mixin_base(kind: str):
     raise BridgeError(f"unknown mixin kind {kind}")
 
 
-_dialect_cache: dict[str, Any] = {}
+ORIGINS = {"list": list, "dict": dict, "set": set, "frozenset": frozenset, "tuple": tuple}
+
+
+def strategy_key(tt, reg):
+    """key of a serialization_strategy table: an exact type, a NewType, or the generic origin"""
+    if tt[0] == "origin":
+        return ORIGINS[tt[1]]
+    return concretize_type(tt, reg)
 
 
 def build_dialect(dterm, reg: Registry, name: str = "VDialect"):
@@ -62,7 +69,7 @@ def build_dialect(dterm, reg: Registry, name: str = "VDialect"):
             ns["no_copy_collections"] = tuple(NOCOPY_TYPES[t] for t in o[1])
         elif k == "strategy":
             ns["serialization_strategy"] = {
-                concretize_type(tt, reg): make_strategy(st, reg) for tt, st in o[1]
+                strategy_key(tt, reg): make_strategy(st, reg) for tt, st in o[1]
             }
         elif k == "name":
             name = o[1]
@@ -160,7 +167,7 @@ def build_dataclass(term, reg: Registry):
         elif k == "cfg_strategy":
             from harness.strategies import make_strategy
             cns["serialization_strategy"] = {
-                concretize_type(tt, reg): make_strategy(st, reg) for tt, st in o[1]
+                strategy_key(tt, reg): make_strategy(st, reg) for tt, st in o[1]
             }
         elif k == "discriminator":
             from mashumaro.types import Discriminator
